@@ -297,6 +297,50 @@ fn main() {
     }
 
 
+    // ---------------------------------------------------------------- sparse vector assembled from parts
+    let mut wpt = CaseWriter::new(&args.out, "parts");
+    for i in 0..args.budget(300, 10000) {
+        let dim = rng.below(12);
+        let k = rng.below(dim + 2) as usize;
+        let mut ps: Vec<u32> = if rng.chance(4, 5) {
+            // distinct in-range positions in a random order
+            let mut all: Vec<u32> = (0..dim as u32).collect();
+            for j in (1..all.len()).rev() { let x = rng.below(j as u64 + 1) as usize; all.swap(j, x); }
+            all.truncate(k);
+            all
+        } else {
+            (0..k).map(|_| rng.below(dim + 2) as u32).collect()
+        };
+        if i % 7 == 0 { ps.sort_unstable(); }
+        // tiny magnitudes on purpose: values a tolerance-based zero test would drop
+        let vs: Vec<u32> = ps.iter().map(|_| match rng.below(10) {
+            0 => 0x3400_0000,            // f32::EPSILON
+            1 => 0x3300_0000,            // EPSILON / 2
+            2 => 0x0080_0000,            // smallest normal
+            3 => 0x8000_0001,            // negative subnormal
+            4 => 0x3380_0000 | (rng.next() as u32 & 0x7f_ffff),
+            _ => f32_bits(&mut rng),
+        }).collect();
+        let vals: Vec<f32> = vs.iter().map(|b| f32::from_bits(*b)).collect();
+        let res = guarded({ let ps = ps.clone(); let vals = vals.clone(); move || SparseVector::try_from_parts(dim as usize, ps, vals) });
+        let r = match res {
+            Err(p) => { hits.push("", &format!("try_from_parts panicked on dim={dim} positions={ps:?} bits={vs:x?}: {p}"), json!({"dim": dim, "positions": ps, "bits": vs})); continue; }
+            Ok(Err(_)) => None,
+            Ok(Ok(sv)) => {
+                let pos: Vec<u64> = sv.positions().iter().map(|p| *p as u64).collect();
+                let val: Vec<u64> = sv.values().iter().map(|f| f.to_bits() as u64).collect();
+                let back: Vec<u64> = sv.to_dense().iter().map(|f| f.to_bits() as u64).collect();
+                let get: Vec<u64> = (0..dim as usize).map(|j| sv.get(j).to_bits() as u64).collect();
+                Some(format!("({}, {}, {}, {})", nl(&pos), nl(&val), nl(&back), nl(&get)))
+            }
+        };
+        dist.hit(if r.is_some() { "parts.accepted" } else { "parts.refused" });
+        if vs.iter().any(|b| { let a = f32::from_bits(*b).abs(); a > 0.0 && a <= f32::EPSILON }) { dist.hit("parts.has_tiny_nonzero"); }
+        let psn: Vec<u64> = ps.iter().map(|p| *p as u64).collect();
+        let vsn: Vec<u64> = vs.iter().map(|b| *b as u64).collect();
+        wpt.push(&format!("({}, {}, {}, {})", dim, nl(&psn), nl(&vsn), opt(r)), &format!("from_parts dim={dim} positions={ps:?} bits={vs:x?}"), k >= 1);
+    }
+
     // ---------------------------------------------------------------- received (possibly forged) sparse vectors
     let mut wv = CaseWriter::new(&args.out, "valid");
     let nvv = args.budget(600, 20000);
@@ -463,6 +507,48 @@ fn main() {
         }
     }
 
+    // ---------------------------------------------------------------- tensor_compress::format sparse decoder on forged input
+    let mut wfd = CaseWriter::new(&args.out, "fdec");
+    {
+        use tensor_compress::format::{decompress_vector, CompressedValue};
+        for i in 0..args.budget(300, 10000) {
+            let dim = *rng.pick(&[0u64, 1, 5, 16, 100]);
+            let k = rng.below(12) as usize;
+            // corpus first: an out-of-range position followed by several in-range ones (wrapping deltas)
+            let ps: Vec<u64> = if i == 0 { vec![5, 1005, 6, 7, 8, 9, 10] } else if i == 1 { vec![3, u64::MAX, 0, 1, 2, 3, 4, 2] } else {
+                let mut v: Vec<u64> = (0..k).map(|_| match rng.below(8) {
+                    0 => dim + rng.below(2000),
+                    1 => u64::MAX - rng.below(3),
+                    2 => dim,
+                    _ => rng.below(dim.max(1)),
+                }).collect();
+                if rng.chance(1, 3) { v.sort_unstable(); }
+                v
+            };
+            let dim = if i < 2 { 100 } else { dim };
+            let nv = if rng.chance(4, 5) { ps.len() } else { rng.below(ps.len() as u64 + 3) as usize };
+            let vs: Vec<u32> = (0..nv).map(|j| if rng.chance(1, 2) { 0x3f80_0000 + j as u32 } else { f32_bits(&mut rng) }).collect();
+            let cv = CompressedValue::VectorSparse { dimension: dim as usize, positions: compress_ids(&ps), values: vs.iter().map(|b| f32::from_bits(*b)).collect() };
+            let r = guarded(move || decompress_vector(&cv).ok().map(|v| v.iter().map(|f| f.to_bits() as u64).collect::<Vec<u64>>()));
+            let rr = match &r { Ok(Some(v)) => Some(nl(v)), _ => None };
+            if let Err(p) = &r { dist.hit("fdec.panicked"); let _ = p; }
+            dist.hit(if ps.windows(2).all(|w| w[0] < w[1]) { "fdec.sorted" } else { "fdec.unsorted" });
+            let vsn: Vec<u64> = vs.iter().map(|b| *b as u64).collect();
+            wfd.push(&format!("({}, {}, {}, {})", dim, nl(&ps), nl(&vsn), opt(rr)), &format!("format::decompress_vector VectorSparse dimension={dim} positions={ps:?} value bits={vs:x?}"), !ps.is_empty());
+        }
+        // arbitrary position BYTES (not produced by any encoder): no panic
+        for _ in 0..args.budget(200, 5000) {
+            let bytes_: Vec<u8> = (0..rng.below(24)).map(|_| rng.below(256) as u8).collect();
+            let dim = rng.below(40) as usize;
+            let nv = rng.below(10) as usize;
+            let bb = bytes_.clone();
+            if let Err(p) = guarded(move || { let cv = CompressedValue::VectorSparse { dimension: dim, positions: bb, values: vec![1.0; nv] }; decompress_vector(&cv).map(|v| v.len()) }) {
+                hits.push("", &format!("format::decompress_vector panicked on VectorSparse dimension={dim} position bytes={} values={nv}: {p}", hex(&bytes_)), json!({"bytes": hex(&bytes_), "dim": dim, "values": nv}));
+            }
+            dist.hit("fdec.random_bytes");
+        }
+    }
+
     // ---------------------------------------------------------------- frames
     let mut wf = CaseWriter::new(&args.out, "frame");
     let nf = args.budget(400, 10000);
@@ -561,6 +647,31 @@ fn main() {
                 continue;
             }
         };
+        // the other three readers on the same bytes: the timeout variant must classify like its plain twin
+        // (v2 readers differ from v1 only after the length prefix: a flags byte is interpreted), none may panic
+        {
+            let mut classes = vec![cls];
+            for which in 1u8..4 {
+                let data = bs.clone();
+                let codec2 = LengthDelimitedCodec::new(max as usize);
+                match guarded(move || { let mut cur = Cursor::new(data); reader_class(&codec2, &mut cur, which) }) {
+                    Ok(c) => classes.push(c),
+                    Err(p) => { hits.push("", &format!("frame reader #{which} panicked on {}: {p}", hex(&bs)), json!({"bytes": hex(&bs), "max": max, "reader": which})); classes.push(9); }
+                }
+            }
+            if classes[1] != classes[0] || classes[3] != classes[2] {
+                hits.push("", &format!("frame readers disagree on max={max} bytes={}: read_frame {} / with_timeout {} / v2 {} / v2_with_timeout {}", hex(&bs), classes[0], classes[1], classes[2], classes[3]), json!({"bytes": hex(&bs), "max": max, "classes": classes}));
+            }
+            // a length prefix above the limit is refused by every reader, one at or below it by none
+            if bs.len() >= 4 {
+                let claimed = u32::from_be_bytes([bs[0], bs[1], bs[2], bs[3]]) as u64;
+                for (k, c) in classes.iter().enumerate() {
+                    if (claimed > max) != (*c == 2) {
+                        hits.push("", &format!("frame reader #{k} size rule: claimed length {claimed}, limit {max}, class {c} on {}", hex(&bs)), json!({"bytes": hex(&bs), "max": max, "reader": k}));
+                    }
+                }
+            }
+        }
         dist.hit(&format!("split.class.{cls}"));
         wp.push(&format!("(Codec {} false 0 false, {}, {})", max, bytes(&bs), cls), &format!("read_frame max={max} bytes={}", hex(&bs)), bs.len() >= 4);
     }
@@ -601,7 +712,7 @@ fn main() {
         &args.out,
         json!({
             "property": "C20", "seed": args.seed, "tier": args.tier,
-            "kinds": [w.summary(), wd.summary(), wl.summary(), wr.summary(), ws.summary(), wf.summary(), wp.summary(), wv.summary(), wb.summary(), wfs.summary(), fz.summary()],
+            "kinds": [w.summary(), wd.summary(), wl.summary(), wr.summary(), ws.summary(), wf.summary(), wp.summary(), wv.summary(), wb.summary(), wfs.summary(), wpt.summary(), wfd.summary(), fz.summary()],
             "distribution": dist.json(),
             "hits": hits.0,
             "nontrivial_rule": "varint/delta/rle/sparse: non-empty (delta, rle: >= 2 elements) and distinct; frame: every case (a real Message through both protocol versions under a limit chosen around its serialized/compressed size); split: at least a full length prefix; fuzz_impl_only cases are not counted as non-trivial",
@@ -609,25 +720,62 @@ fn main() {
     );
 }
 
-/// outcome of read_frame / read_frame_v2 on one encoded frame: 0 = the message that was sent, 1 = another
-/// message, 2 = MessageTooLarge, 3 = any other error or end of stream
+/// outcome of the readers on one encoded frame: 0 = the message that was sent, 1 = another
+/// message, 2 = MessageTooLarge, 3 = any other error or end of stream.  All transport read paths are
+/// driven -- read_frame(_v2), read_frame(_v2)_with_timeout, each on the bytes `encode(_v2)` returned
+/// and on the bytes write_frame(_v2)(_with_timeout) put on the wire -- and the worst code is reported, so
+/// a reader that refuses (or garbles) what its own writer produced shows up as a non-zero code.
 fn read_code(sent: &Message, codec: &LengthDelimitedCodec, frame: Vec<u8>, v2: bool) -> u64 {
     let rt = tokio::runtime::Builder::new_current_thread().enable_time().build().unwrap();
-    let mut cur = Cursor::new(frame);
-    let r = if v2 { rt.block_on(codec.read_frame_v2(&mut cur)) } else { rt.block_on(codec.read_frame(&mut cur)) };
-    match r {
-        Ok(Some(m)) => if format!("{m:?}") == format!("{sent:?}") { 0 } else { 1 },
-        Ok(None) => 3,
-        Err(TcpError::MessageTooLarge { .. }) => 2,
-        Err(_) => 3,
+    let tmo = std::time::Duration::from_secs(20);
+    let code = |r: Result<Option<Message>, TcpError>| -> u64 {
+        match r {
+            Ok(Some(m)) => if format!("{m:?}") == format!("{sent:?}") { 0 } else { 1 },
+            Ok(None) => 3,
+            Err(TcpError::MessageTooLarge { .. }) => 2,
+            Err(_) => 3,
+        }
+    };
+    let mut wires: Vec<Vec<u8>> = vec![frame.clone()];
+    // what the writers put on the wire must be the encoded frame
+    let mut w1: Vec<u8> = vec![];
+    let mut w2: Vec<u8> = vec![];
+    let (a, b) = if v2 {
+        (rt.block_on(codec.write_frame_v2(&mut w1, sent)).is_ok(), rt.block_on(codec.write_frame_v2_with_timeout(&mut w2, sent, tmo)).is_ok())
+    } else {
+        (rt.block_on(codec.write_frame(&mut w1, sent)).is_ok(), rt.block_on(codec.write_frame_with_timeout(&mut w2, sent, tmo)).is_ok())
+    };
+    let mut worst = 0u64;
+    if !a || !b || w1 != frame || w2 != frame {
+        worst = 3; // a writer refused or altered a frame encode accepted
     }
+    wires.push(w1);
+    wires.push(w2);
+    for w in wires {
+        let mut c1 = Cursor::new(w.clone());
+        let mut c2 = Cursor::new(w);
+        let (r1, r2) = if v2 {
+            (rt.block_on(codec.read_frame_v2(&mut c1)), rt.block_on(codec.read_frame_v2_with_timeout(&mut c2, tmo)))
+        } else {
+            (rt.block_on(codec.read_frame(&mut c1)), rt.block_on(codec.read_frame_with_timeout(&mut c2, tmo)))
+        };
+        worst = worst.max(code(r1)).max(code(r2));
+    }
+    worst
 }
 
-/// class of read_frame's outcome on a byte string: 0 = payload extracted (decoded or not
-/// deserializable), 2 = MessageTooLarge, 3 = invalid / eof / short read
-fn rt_block(codec: &LengthDelimitedCodec, cur: &mut Cursor<Vec<u8>>) -> u64 {
-    let rt = tokio::runtime::Builder::new_current_thread().build().unwrap();
-    let r = rt.block_on(codec.read_frame(cur));
+/// class of a reader's outcome on a byte string: 0 = payload extracted (decoded or not
+/// deserializable), 2 = MessageTooLarge, 3 = invalid / eof / short read.  `which`: 0 read_frame,
+/// 1 read_frame_with_timeout, 2 read_frame_v2, 3 read_frame_v2_with_timeout
+fn reader_class(codec: &LengthDelimitedCodec, cur: &mut Cursor<Vec<u8>>, which: u8) -> u64 {
+    let rt = tokio::runtime::Builder::new_current_thread().enable_time().build().unwrap();
+    let tmo = std::time::Duration::from_secs(20);
+    let r = match which {
+        0 => rt.block_on(codec.read_frame(cur)),
+        1 => rt.block_on(codec.read_frame_with_timeout(cur, tmo)),
+        2 => rt.block_on(codec.read_frame_v2(cur)),
+        _ => rt.block_on(codec.read_frame_v2_with_timeout(cur, tmo)),
+    };
     match r {
         Ok(Some(_)) => 0,
         Ok(None) => 3,
@@ -636,4 +784,7 @@ fn rt_block(codec: &LengthDelimitedCodec, cur: &mut Cursor<Vec<u8>>) -> u64 {
         Err(TcpError::Io(_)) => 3,
         Err(_) => 0, // payload was read in full and handed to the deserializer, which rejected it
     }
+}
+fn rt_block(codec: &LengthDelimitedCodec, cur: &mut Cursor<Vec<u8>>) -> u64 {
+    reader_class(codec, cur, 0)
 }
